@@ -598,6 +598,33 @@ def r32_order_agree(ctx):
               "a - b with b later is -(b - a): one sign throughout",
               "TimePoint.__sub__: %s; under `other > self` the result must "
               "be the negation of (other - self)" % why, ("C04",))
+    # field differences are (mine - other)
+    origin = {}        # local -> "self" / "other"
+    for n in walk_no_nested(f.node):
+        if isinstance(n, ast.Assign) and isinstance(
+                n.targets[0], ast.Tuple) and isinstance(n.value, ast.Call) \
+                and isinstance(n.value.func, ast.Attribute) and \
+                n.value.func.attr in KEY_GETTERS:
+            root, meths, calls = derivation(f, n.value.func.value)
+            for e in n.targets[0].elts:
+                if isinstance(e, ast.Name):
+                    origin[e.id] = root
+    diffs = [n for n in walk_no_nested(f.node) if isinstance(n, ast.Assign)
+             and isinstance(n.value, ast.BinOp) and isinstance(
+                 n.value.op, ast.Sub) and U(n.value.left) in origin and
+             U(n.value.right) in origin]
+    if diffs:
+        rep.anchor(rule, "ordered subtractions")
+        bad = [U(n) for n in diffs if not (
+            origin[U(n.value.left)] == selfn and
+            origin[U(n.value.right)] == oth)]
+        rep.check(not bad, rule, ctx.fkey(f, None, "mine-minus-other"),
+                  f.loc(diffs[0]),
+                  "every field difference is (field of self) - (field of "
+                  "other): %d differences" % len(diffs),
+                  "TimePoint.__sub__ computes %s: after the `other > self` "
+                  "case was handled the remaining differences must be "
+                  "self - other" % bad, ("C04",))
     # year-range orientation
     for n in walk_no_nested(f.node):
         if isinstance(n, ast.If) and isinstance(n.test, ast.Compare) and \
